@@ -114,7 +114,7 @@ PROPS["C05"] = {
 PROPS["C06"] = {
     "suites": ["replace_suffixes", "c06_except"],
     "trusted": GEN_TRUST,
-    "level_text": "WHOLE-COMMAND THEOREM for word-list files (entries, comments, blank lines; clean lines): for every includer, position, includer state and map order, generate of the file with `include-except F X1..Xn` equals generate of the file with, in the directive's place, the entries of F that are not entries of any Xi, each once, in the order of their last occurrence (partial: no suffix pairs on the directive, no own definitions/prefixes/suffixes in the files - those by the lemmas below and the by-hand oracle). Kernel-checked theorems for all line maps, pair lists and iteration orders: sorting by the unique index gives one result for every iteration order of the line map (so the surviving entries keep F's order), an entry that ends in no key is untouched, an entry that ends in exactly one key gets exactly that ending replaced or deleted, comments/directives/blank lines are skipped, no pair list means no change; chained pairs are refuted by a model witness (known finding). Tied by pins, function-level differential runs of replaceSuffixes (Go result in the model's result set over all orders) and end-to-end runs. Per generated case the binary's output is compared with its output for the program in which the harness did the set difference and the rewrite by hand.",
+    "level_text": "WHOLE-COMMAND THEOREM for word-list files (entries, comments, blank lines; clean lines): for every includer, position, includer state and map order, generate of the file with `include-except F X1..Xn` equals generate of the file with, in the directive's place, the entries of F that are not entries of any Xi, each once, in the order of their last occurrence and `include F -- k v ...` of a word-list file equals typing the rewritten entries (apply_pairs in the iteration order of the pair map) provided they are ordinary entry lines again (partial: pairs on include-except and own definitions/prefixes/suffixes in the files by the lemmas below and the by-hand oracle). Kernel-checked theorems for all line maps, pair lists and iteration orders: sorting by the unique index gives one result for every iteration order of the line map (so the surviving entries keep F's order), an entry that ends in no key is untouched, an entry that ends in exactly one key gets exactly that ending replaced or deleted, comments/directives/blank lines are skipped, no pair list means no change; chained pairs are refuted by a model witness (known finding). Tied by pins, function-level differential runs of replaceSuffixes (Go result in the model's result set over all orders) and end-to-end runs. Per generated case the binary's output is compared with its output for the program in which the harness did the set difference and the rewrite by hand.",
     "level_note": "Trusted as C01. 'exactly the entries of F that occur in no Xi' for the whole map/delete/sort pipeline is decided per generated case (by-hand program), the theorem covers the sort and the rewrite.",
     "assumptions": ["pair lists are non-interfering in the by-hand comparison"],
 }
